@@ -1,5 +1,6 @@
 import Kopf.Drv.Json
 import Kopf.Model.C11_Errors
+import Kopf.Model.C11_Storage
 open Lean
 namespace Kopf.Drv.C11
 open Kopf.C11
@@ -235,6 +236,14 @@ def handle : DrvHandler := fun op args =>
       | .idle d => some (ok (Json.mkObj [("awake", .bool false), ("done", .bool d)]))
       | .att a => some (ok (Json.mkObj [("awake", .bool true), ("out", outJ a.out), ("end", int a.endTime),
                                         ("rec", recJ a.recAfter)]))
+  | "C11.fetch", [places, now] => do
+      -- the record a cycle starts from when the handler's record stands in several places of the object
+      -- (in the configured storages' order; null = that place has none): null = none anywhere
+      let ps ← (← jArr? places).mapM (jOpt? recOf?)
+      let now ← jInt? now
+      match multiFetch (ps.map (fun p => p.map toStorage)) with
+      | some s => some (ok (recJ (fromStorage s now)))
+      | none => some (ok .null)
   | "C11.roundtrip", [r, now] => do
       let r ← recOf? r; let now ← jInt? now
       some (ok (recJ (fromStorage (toStorage r) now)))
